@@ -31,7 +31,7 @@ type c11Spec struct {
 	Shard, Shards int
 }
 
-var c11Classes = []string{"Fsoil", "Ffield", "Ftex", "Fptf", "Fgap", "Ftill", "Fyear", "Fargs"}
+var c11Classes = []string{"Fsoil", "Ffield", "Ftex", "Ftex2", "Fptf", "Fgap", "Ftill", "Fyear", "Fargs"}
 
 func c11Specs(tier string, seed int) []c11Spec {
 	var out []c11Spec
@@ -54,7 +54,7 @@ func c11Specs(tier string, seed int) []c11Spec {
 	if tier == "thorough" {
 		bound = 3
 	}
-	e3classes := []string{"Fsoil", "Fyear", "Ftill", "Fargs"}
+	e3classes := []string{"Fsoil", "Ftill", "Fargs"}
 	if tier == "thorough" {
 		e3classes = c11Classes
 	}
@@ -92,14 +92,14 @@ func init() {
 	mc.Register(&mc.Check{
 		ID:        "C11",
 		Technique: "stateless model checking of the real dispatcher and runs under a controlled scheduler (all interleavings up to a preemption bound) for batches with a failing line, plus exhaustive enumeration over the real command-line program: failing-line class x position x concurrency, and fertiliser prediction at every integer latitude with a termination deadline",
-		Rule: "e4 scenario = batch of three valid lines and one line failing in one of 8 error classes (unknown soil id, unknown field id, texture not in the tables, inconsistent texture fractions under a transfer function, weather gap, tillage between sowing and harvest, start-year mismatch, missing project argument) at every position, concurrency 1-4, run by the real hermes2go: the process must terminate with exit code 0, the error summary must list exactly the failing line ids, every valid line's result files must be byte-identical to that line run alone, the failing line must not disturb files of others; " +
+		Rule: "e4 scenario = batch of three valid lines and one line failing in one of 9 error classes (unknown soil id, unknown field id, texture not in the tables with and without explicit capacity values, inconsistent texture fractions under a transfer function, weather gap, tillage between sowing and harvest, start-year mismatch, missing project argument) at every position, concurrency 1-4, run by the real hermes2go: the process must terminate with exit code 0, the error summary must list exactly the failing line ids, every valid line's result files must be byte-identical to that line run alone, the failing line must not disturb files of others; " +
 			"e3 scenario = two valid lines and a failing line under the scheduler: every interleaving must satisfy the same oracle and never deadlock; lat scenario = fertiliser prediction switched on at every integer latitude -90..90 x 4 prediction dates: every run must end (success or run error) within 120 s (normal: < 0.1 s)",
 		Assumptions: []string{"valid lines: two plots sharing all project files, one project sharing the parameter folder", "termination deadline 120 s per process (more than 1000 x the normal duration)", "scheduler assumptions as for C03"},
 		Bound: func(t string) string {
 			if t == "quick" {
-				return "8 failing-line classes x 4 positions x 4 concurrency levels (half of the grid) + 6 multi-failure batches on the real binary; 4 classes x 3 positions x 3 concurrency levels at preemption bound 1 under the scheduler; 181 latitudes x 4 dates"
+				return "9 failing-line classes x 4 positions x 4 concurrency levels (half of the grid) + 6 multi-failure batches on the real binary; 3 classes x 3 positions x 3 concurrency levels at preemption bound 1 under the scheduler; 181 latitudes x 4 dates"
 			}
-			return "8 classes x 4 positions x 4 concurrency levels + 6 multi-failure batches on the real binary; 8 classes x 3 positions x 3 concurrency levels at preemption bound 3 under the scheduler; 181 latitudes x 4 dates"
+			return "9 classes x 4 positions x 4 concurrency levels + 6 multi-failure batches on the real binary; 9 classes x 3 positions x 3 concurrency levels at preemption bound 3 under the scheduler; 181 latitudes x 4 dates"
 		},
 		Budget: func(t string) time.Duration {
 			if t == "quick" {
